@@ -3,13 +3,18 @@
    Proved here: every external leaf states a fact that is true of the provider, every derived node's
    terms are entailed by its two causes FOR EVERY ASSIGNMENT (not only for solutions), and the top node
    forbids the root at the requested version.
-   NOT proved in Coq (decided by the tree correspondence with the model and by the oracle): the clause
-   about shared ids ("a derived node carries a shared id exactly when it is reachable along more than
-   one path, and all occurrences of one id are the same subtree"; read as in-degree >= 2 in the cause
-   DAG, DESIGN.md section 7). *)
+   The clause about shared ids ("a derived node carries a shared id exactly when it is reachable along more
+   than one path, and all occurrences of one id are the same subtree") is proved in Proofs/SolverShared.v and
+   stated below: [nosolution_tree_sharing] — the tree is [tree_of] of the store for a shared list that contains
+   exactly the derived ids with in-degree >= 2 in the cause DAG reachable from the top id (equivalently: with
+   two different incoming edges, the top counting as having one edge from outside; "reachable along more than
+   one path" is read as this in-degree, DESIGN.md section 7: a node below a shared node is expanded once and
+   not marked), a derived node built for store id j carries [Some j] exactly when j is in that list, and all
+   occurrences of one id are the same subtree; [derivation_tree_total]: build_derivation_tree never fails on
+   the store of a run (its fuel always suffices). *)
 From Coq Require Import List NArith Bool.
 From PG Require Import Model.VS Model.Term Model.Solver Model.Registry Proofs.VSLaws Proofs.AssocProofs Proofs.SolverSem
-  Proofs.SolverStore Proofs.SolverTree.
+  Proofs.SolverStore Proofs.SolverTree Proofs.SolverShared.
 From Coq Require Import ZArith.
 From PG Require Import Model.Instances Proofs.SolverExamples.
 
@@ -52,6 +57,41 @@ Section C03.
       prior_cause O i j ti tj p = Good pc ->
       forall a : assignment, violates O a (terms pc) -> violates O a ti \/ violates O a tj.
   Proof. exact (prior_cause_entails O L). Qed.
+
+  Theorem nosolution_tree_sharing :
+    reg_wf O L reg -> (forall a b, veqb a b = true -> a = b) ->
+    forall fuel tr t st log k,
+      WellBehaved O reg tr -> resolve O veqb fuel r rv tr = (ONoSolution t, st, log, k) ->
+      exists top shared,
+        build_derivation_tree (store st) top = Some t
+        /\ tree_of (S (length (store st))) (store st) shared top = Some t
+        /\ (forall x, In x shared <-> (exists a b ci, nth_error (store st) x = Some ci /\ ikind ci = KDerived a b)
+                                      /\ 2 <= indeg (store st) top x)
+        /\ (forall x, In x shared <-> (exists a b ci, nth_error (store st) x = Some ci /\ ikind ci = KDerived a b)
+                                      /\ multi_path (store st) top x)
+        /\ (forall i ts1 a1 b1 ts2 a2 b2,
+              subtree (TDerived ts1 (Some i) a1 b1) t -> subtree (TDerived ts2 (Some i) a2 b2) t ->
+              TDerived ts1 (Some i) a1 b1 = TDerived ts2 (Some i) a2 b2)
+        /\ (forall u, subtree u t -> exists f j, reachable (store st) top j /\ tree_of f (store st) shared j = Some u)
+        /\ (forall j, reachable (store st) top j -> exists f u, subtree u t /\ tree_of f (store st) shared j = Some u)
+        /\ (forall f j ts o c1 c2, tree_of f (store st) shared j = Some (TDerived ts o c1 c2) ->
+              (o = Some j <-> 2 <= indeg (store st) top j) /\ (o = None <-> ~ 2 <= indeg (store st) top j)
+              /\ (forall i, o = Some i -> i = j)).
+  Proof.
+    intros Hw Hv fuel tr t st log k Hwb E.
+    destruct (nosolution_tree_shared O L veqb reg r rv Hw Hv fuel tr t st log k Hwb E)
+      as (top & shared & _ & H1 & H2 & H3 & H4 & H5 & H6 & H7 & H8).
+    exists top, shared. exact (conj H1 (conj H2 (conj H3 (conj H4 (conj H5 (conj H6 (conj H7 H8))))))).
+  Qed.
+
+  (* reading of [indeg] without the enumeration: two different edges into x *)
+  Theorem indeg_two_iff_two_edges :
+    forall (st : list (@incompat VS Vr)) top x, wf_store st -> (2 <= indeg st top x <-> multi_path st top x).
+  Proof. exact (indeg_multi_path (VS := VS) (Vr := Vr)). Qed.
+
+  Theorem derivation_tree_total :
+    forall s top, store_just O L reg r rv s -> top < length s -> exists t, build_derivation_tree s top = Some t.
+  Proof. exact (store_just_tree_total O L reg r rv). Qed.
 End C03.
 
 (* non-vacuity: the tree of a recorded NoSolution run over Range<Z> (a derived node over a NoVersions and a
@@ -70,3 +110,6 @@ Print Assumptions nosolution_tree_is_proof_partial.
 Print Assumptions tree_ok_derived_inv.
 Print Assumptions tree_ok_leaf_inv.
 Print Assumptions prior_cause_entailed.
+Print Assumptions nosolution_tree_sharing.
+Print Assumptions indeg_two_iff_two_edges.
+Print Assumptions derivation_tree_total.
